@@ -33,7 +33,7 @@ SPEC = dict(
           "Parse(String()) and top-level Full, with the architecture argument rotating over amd64/arm64/-/''/riscv64/x; "
           "clean: Channel values with track, risk, branch each over {'', latest, stable, edge, foo, a/b}; resolve: ALL pairs "
           "(cur of 1..3 components, new of 1..2 components) and pinned: ALL pairs (track of 1..2, new of 1..3 components) "
-          "over {'', latest, stable, edge, foo, 1.0} (thorough: the 9-word vocabulary); plus a random stream (odd spellings, "
+          "over {'', latest, stable, edge, foo} (new of Resolve also 1.0; thorough: the 9-word vocabulary); plus a random stream (odd spellings, "
           "non-ASCII, doubled slashes, up to 6 components) through all four. Non-trivial = accepted parse / Clean changed "
           "something / Resolve inherited the track / pinned track valid."),
     exhaustive=dict(quick=True, thorough=True),
